@@ -4,6 +4,9 @@ import (
 	"context"
 	"encoding/json"
 	"fmt"
+	"github.com/creachadair/jrpc2/jhttp"
+	"github.com/creachadair/jrpc2/server"
+	"net/http/httptest"
 	"sort"
 	"strings"
 	"time"
@@ -419,6 +422,79 @@ func c17Dynamic() *Scenario {
 					r.Fail("C17.R4", "changing assigner", p, "")
 				}
 			}
+			// the start time given in the options is the one reported; DisableBuiltin reaches the servers that
+			// server.Loop, jhttp.Bridge and jhttp.Getter build from their options
+			{
+				want := time.Date(2001, 2, 3, 4, 5, 6, 0, time.UTC)
+				var got time.Time
+				reached := map[string]bool{}
+				x := vs.Run(nil, func() {
+					cch, sch := channel.Direct()
+					srv := jrpc2.NewServer(anyAssigner{func(context.Context, *jrpc2.Request) (any, error) { return 1, nil }}, &jrpc2.ServerOptions{StartTime: want}).Start(sch)
+					cli := jrpc2.NewClient(cch, nil)
+					var info jrpc2.ServerInfo
+					if cli.CallResult(context.Background(), "rpc.serverInfo", nil, &info) == nil {
+						got = info.StartTime
+					}
+					cli.Close()
+					srv.WaitStatus()
+					// wrappers
+					catch := func(tag string) jrpc2.Assigner {
+						return assignerFunc(func(ctx context.Context, m string) jrpc2.Handler {
+							if m == "rpc.x" {
+								reached[tag] = true
+							}
+							return func(context.Context, *jrpc2.Request) (any, error) { return 1, nil }
+						})
+					}
+					so := &jrpc2.ServerOptions{DisableBuiltin: true}
+					loc := server.NewLocal(catch("local"), &server.LocalOptions{Server: so})
+					loc.Client.Call(context.Background(), "rpc.x", nil)
+					loc.Close()
+					g := jhttp.NewGetter(catch("getter"), &jhttp.GetterOptions{Server: so})
+					g.ServeHTTP(httptest.NewRecorder(), httptest.NewRequest("GET", "/rpc.x", nil))
+					g.Close()
+					// server.Loop
+					{
+						lib, peer, _ := NewPipe(PipeOpts{Name: "loopconn", CloseUnblocksRecv: true, Quiet: true})
+						acc := &memAccepter{queue: []channel.Channel{lib}}
+						lctx, lcancel := cancelCauseCtx()
+						vs.GoNamed("loop-client", func() {
+							peer.Send([]byte(`{"jsonrpc":"2.0","id":1,"method":"rpc.x"}`))
+							peer.Recv()
+							peer.Close()
+							vs.AwaitQuiescence()
+							lcancel()
+						})
+						server.Loop(lctx, acc, server.Static(catch("loop")), &server.LoopOptions{ServerOptions: so})
+						lcancel()
+					}
+					// the GET side of a Bridge
+					bg := jhttp.NewBridge(catch("bridge-get"), &jhttp.BridgeOptions{Server: so, ParseGETRequest: jhttp.ParseBasic})
+					bg.ServeHTTP(httptest.NewRecorder(), httptest.NewRequest("GET", "/rpc.x", nil))
+					bg.Close()
+					b := jhttp.NewBridge(catch("bridge"), &jhttp.BridgeOptions{Server: so})
+					rq := httptest.NewRequest("POST", "/", strings.NewReader(`{"jsonrpc":"2.0","id":1,"method":"rpc.x"}`))
+					rq.Header.Set("Content-Type", "application/json")
+					b.ServeHTTP(httptest.NewRecorder(), rq)
+					b.Close()
+				})
+				r.Calls(x.Steps)
+				r.Case("options", true)
+				Hit("C17.R4")
+				if x.Outcome != "ok" {
+					r.Fail("G1", "options", "run ended with "+x.Outcome+" "+firstLine(x.Detail), "")
+				}
+				if !got.Equal(want) {
+					r.Fail("C17.R4", "ServerOptions.StartTime", fmt.Sprintf("rpc.serverInfo reports start time %v, the options say %v", got, want), "")
+				}
+				for _, tag := range []string{"local", "getter", "bridge", "bridge-get", "loop"} {
+					Hit("C17.R6")
+					if !reached[tag] {
+						r.Fail("C17.R6", "DisableBuiltin through "+tag, "with DisableBuiltin set in the server options a call to rpc.x did not reach the assigner", "")
+					}
+				}
+			}
 			// a ServiceMap one of whose services cannot list its methods
 			var mixed []string
 			pm := guarded(func() {
@@ -439,6 +515,23 @@ func c17Dynamic() *Scenario {
 				}
 				if !sort.StringsAreSorted(mixed) || strings.Join(plain, ",") != "s.a,s.b,u.w.x" {
 					r.Fail("C17.R3", "ServiceMap with a service that is not a Namer", fmt.Sprintf("Names() = %q: want sorted, with s.a, s.b and u.w.x listed", mixed), "")
+				}
+				if strings.Join(mixed, ",") != "s.a,s.b,t.*,u.v.*,u.w.x" {
+					r.Fail("C17.R3", "ServiceMap with a service that is not a Namer", fmt.Sprintf("Names() = %q: a service that cannot list its methods is documented to appear as <service>.*", mixed), "")
+				}
+			}
+			// Names is sorted on every call (map iteration order varies), and an empty ServiceMap lists nothing
+			{
+				sm := handler.ServiceMap{"b": handler.Map{"x": nil}, "a": handler.Map{"y": nil}, "c": handler.Map{"z": nil}, "d": handler.Map{"w": nil}}
+				for k := 0; k < 40; k++ {
+					if got := sm.Names(); strings.Join(got, ",") != "a.y,b.x,c.z,d.w" {
+						r.Fail("C17.R3", "ServiceMap{a,b,c,d}.Names()", fmt.Sprintf("call %d returned %q", k+1, got), "")
+						break
+					}
+				}
+				var empty []string
+				if pe := guarded(func() { empty = handler.ServiceMap{}.Names() }); pe != "" || len(empty) != 0 {
+					r.Fail("C17.R3", "ServiceMap{}.Names()", fmt.Sprintf("panic %q, names %q", pe, empty), "")
 				}
 			}
 			// an assigner that lists nothing: the documented placeholder
